@@ -4,11 +4,45 @@ use happylock::ThreadKey;
 
 use crate::exec::*;
 use crate::json::J;
+use crate::lk::{Flat, KeyArg, Lk};
 use crate::prog::*;
 use crate::report::*;
 use crate::rng::hash_str;
 use crate::solo::*;
 use crate::world::*;
+
+/// A scoped call made from a destructor while the thread is already unwinding from an earlier
+/// panic; its closure panics too and the destructor contains that second panic.
+struct Bomb<'x> {
+	lk: &'x dyn Lk,
+	mode: Mode,
+	key: Option<ThreadKey>,
+	lent: bool,
+	outcome: &'x std::cell::Cell<u8>,
+}
+impl Drop for Bomb<'_> {
+	fn drop(&mut self) {
+		let body = |_f: Flat<'_>, _p: Option<bool>| {
+			std::panic::resume_unwind(Box::new(InjectedPanic(1)));
+		};
+		let mut key = self.key.take().expect("bomb key");
+		let lk = self.lk;
+		let mode = self.mode;
+		let lent = self.lent;
+		let r = std::panic::catch_unwind(std::panic::AssertUnwindSafe(move || {
+			if lent {
+				lk.scoped(KeyArg::Lent(&mut key), mode, &body);
+			} else {
+				lk.scoped(KeyArg::Owned(key), mode, &body);
+			}
+		}));
+		self.outcome.set(match r {
+			Ok(()) => 1,                                      // second panic swallowed
+			Err(e) if e.is::<InjectedPanic>() => 2,           // propagated, as it must
+			Err(_) => 3,
+		});
+	}
+}
 
 pub fn run(cfg: &RunCfg) -> Report {
 	let max_n = if cfg.thorough { 4 } else { 3 };
@@ -84,6 +118,49 @@ pub fn run(cfg: &RunCfg) -> Report {
 							return n;
 						}
 					}
+					// the same scoped call made from a destructor while already unwinding
+					if matches!(api, Api::Scoped) {
+						let outcome = std::cell::Cell::new(0u8);
+						let key = tc.key.take().or_else(ThreadKey::get);
+						if let Some(key) = key {
+							let t2 = target.clone();
+							tc.with_lk(&t2, |_tc, lk, _| {
+								let r = guarded(|| {
+									let _bomb = Bomb {
+										lk,
+										mode,
+										key: Some(key),
+										lent,
+										outcome: &outcome,
+									};
+									std::panic::resume_unwind(Box::new(InjectedPanic(7)));
+								});
+								let _ = r;
+							});
+							n += 1;
+							match outcome.get() {
+								2 => {}
+								1 => w.violate("C11", "panic_swallowed", format!("{d}: a panic inside a scoped closure called while unwinding did not propagate")),
+								x => w.violate("C11", "panic_replaced", format!("{d}: nested scoped call ended with outcome {x}")),
+							}
+							let held = w.held(0);
+							if !held.is_empty() {
+								w.violate(
+									"C11",
+									"lock_leaked_by_panic",
+									format!("{d} called from a destructor while the thread was already unwinding: thread still holds {:?}", held),
+								);
+								let mut g = w.g();
+								for l in g.locks.iter_mut() {
+									if l.excl == Some(0) {
+										l.excl = None;
+									}
+									l.shared.retain(|t| *t != 0);
+								}
+							}
+							tc.key = ThreadKey::get();
+						}
+					}
 					// waiting threads proceed = the locks can be taken again at once
 					let again = Acq {
 						panic: false,
@@ -140,7 +217,7 @@ pub fn run(cfg: &RunCfg) -> Report {
 				prop: v.prop.into(),
 				rule: v.rule.into(),
 				detail: v.detail.clone(),
-				signature: format!("{}:{}", v.prop, v.rule),
+				signature: sig_of(v),
 				case: case0.clone(),
 				index: i,
 				log: out.log.iter().rev().take(60).rev().cloned().collect(),
@@ -148,6 +225,6 @@ pub fn run(cfg: &RunCfg) -> Report {
 		}
 	});
 	rep.exhaustive = false;
-	rep.rule = format!("systematic product: every shape of sizes 1..{max_n} (families R, M, Poisonable<R>, Poisonable<M>, mixed; single, boxed/ref/retrying in every arrangement, nested, poisonable-wrapped, owned/boxed/retrying units) x {{write, read}} x {{guard, guard+unlock, try, scoped owned key, scoped lent key, scoped_try owned, scoped_try lent}} with a typed panic raised inside the critical section; after the unwind is caught at the client boundary: payload must be the injected one, the caller holds nothing, no release was audited as bad, the key is obtainable, and the same locks are re-acquired at once");
+	rep.rule = format!("systematic product: every shape of sizes 1..{max_n} (families R, M, Poisonable<R>, Poisonable<M>, mixed; single, boxed/ref/retrying in every arrangement, nested, poisonable-wrapped, owned/boxed/retrying units) x {{write, read}} x {{guard, guard+unlock, try, scoped owned key, scoped lent key, scoped_try owned, scoped_try lent}} with a typed panic raised inside the critical section (and, for scoped calls, also from a destructor that runs while the thread is already unwinding from another panic); after the unwind is caught at the client boundary: payload must be the injected one, the caller holds nothing, no release was audited as bad, the key is obtainable, and the same locks are re-acquired at once");
 	rep
 }
